@@ -17,6 +17,8 @@ package grpcmux
 //@   immutable addr, logger, ln, sessionErrCh, knockCh, acceptChannels   [C20.guard]
 //@   never_closed knockCh   [C20.send]
 //@   writers grpcmux.NewGRPCServerMuxer
+//@   after_recv sess:sessionErrCh   [C20.guard]
+//@   publishers sess:(*grpcmux.GRPCServerMuxer).acceptSession
 
 //@ type grpcmux.GRPCClientMuxer
 //@   guarded_by acceptMutex: map:acceptListeners   [C20.guard] [C08.mux-c]
